@@ -208,7 +208,7 @@ def one_core(prog, chk):
 def frontend_verdicts(prog, chk):
     """after the core call a front-end constructs no SvgdxError of its own"""
     scope = []
-    for root in ("svgdx::server::transform", "svgdx::transform_str", "svgdx::transform_string", "svgdx::transform_file", "svgdx::transform_str_default"):
+    for root in ("svgdx::server::transform", "svgdx::server::transform_on_thread", "svgdx::transform_str", "svgdx::transform_string", "svgdx::transform_file", "svgdx::transform_str_default"):
         b = prog.maybe_body(root)
         if b is None:
             continue
@@ -273,12 +273,25 @@ def failure_signal(prog, chk):
             chk.ob(os_ == [] and oh.get("Content-Type") == "image/svg+xml", "A13.http-status", "server::transform:Ok", ok_c.where(), "a successful transform is answered 200 image/svg+xml", f"Ok arm answers status={os_} content-type={oh.get('Content-Type')}")
             # the error text is the Display of the error
             disp = [c.targs for (bb, t, c) in err_c.call_sites(lambda c: c.path.endswith("::new_display"))]
-            chk.ob(any("SvgdxError" in " ".join(x) for x in disp), "A13.http-status", "server::transform:Err-body", err_c.where(), "the 400 body renders the error through Display", "the 400 body does not render the error")
+            direct = any("SvgdxError" in " ".join(x) for x in disp)
+            # or: the error reaches the handler already rendered -- some server body converts the SvgdxError with
+            # to_string (Display) and the Err closure prints that String
+            via_string = False
+            if any("String" in " ".join(x) for x in disp):
+                for sb in prog.bodies.values():
+                    if sb.path.startswith("svgdx::server::"):
+                        for (bb, t, c) in sb.call_sites(lambda c: c.decl_path == "std::string::ToString::to_string"):
+                            if "SvgdxError" in " ".join(c.targs) or "SvgdxError" in (c.self_ty or "") or "SvgdxError" in sb.local_ty(op_place(t["args"][0])[0] if op_place(t["args"][0]) else 0):
+                                via_string = True
+            chk.ob(direct or via_string, "A13.http-status", "server::transform:Err-body", err_c.where(), "the 400 body renders the error through Display", "the 400 body does not render the error")
     if "cli" in prog.features:
         m = prog.maybe_body("svgdx::main")
         it = prog.item("svgdx::main", "fn")
         if m is None or it is None:
-            chk.anchor_missing("A13.exit-status", "bin svgdx main not found")
+            if "svgdx-bin" in prog.units or chk.config == "default":
+                chk.anchor_missing("A13.exit-status", "bin svgdx main not found")
+            else:
+                chk.note("bin svgdx is not part of this feature configuration's units")
             return
         chk.touch(m)
         if it["output"].startswith("std::result::Result<"):
